@@ -42,6 +42,7 @@ type Ctx struct {
 	Seed    int64
 	RepoDir string
 	VerifDir string
+	HomeDir  string // where the checker's own sources and positive controls live
 
 	start  time.Time
 	obs    []Ob
@@ -64,7 +65,11 @@ func newCtx(prop, tier string) *Ctx {
 	if verif == "" {
 		verif = "/verif"
 	}
-	return &Ctx{Prop: prop, Tier: tier, RepoDir: repo, VerifDir: verif, start: time.Now(),
+	home := os.Getenv("PERFCHECK_HOME")
+	if home == "" {
+		home = verif
+	}
+	return &Ctx{Prop: prop, Tier: tier, RepoDir: repo, VerifDir: verif, HomeDir: home, start: time.Now(),
 		seen: map[string]bool{}, loaded: map[string]bool{}, funcs: map[string]bool{},
 		rules: map[string]string{}, extra: map[string]any{}}
 }
